@@ -896,6 +896,16 @@ class CallMixin(object):
       return V(BOOL, self.truth(st, args[0]))
     if name == 'is_none':
       return V(BOOL, self.is_none(args[0]))
+    if name == 'caught':
+      # caught("Cls"): inside an except handler, whether the exception being handled on this path is a Cls
+      # (paths are split per raised class, so this is a constant of the path; False outside any handler)
+      from .stmt import exc_is
+      exc = None
+      for fid in cx.chain:
+        exc = st.frames.get(fid, {}).get('$exc')
+        if exc is not None:
+          break
+      return V(BOOL, z3.BoolVal(exc is not None and exc_is(exc.cls, args[0].py)))
     if name == 'allocated':
       b = z3.And(args[0].t > 0, args[0].t <= st.alloc)
       ty = args[0].ty
